@@ -132,8 +132,16 @@ def norm(x):
         return [norm(v) for v in x]
     if isinstance(x, (set, frozenset)):
         return {"__set__": sorted(repr(norm(v)) for v in x)}
-    # trimesh / unknown objects: only their type takes part in the comparison
-    return {"__type__": type(x).__module__ + "." + type(x).__name__}
+    tname = type(x).__module__ + "." + type(x).__name__
+    if tname.startswith("trimesh.") and hasattr(x, "vertices") and hasattr(x, "faces"):
+        return {"__trimesh__": 1, "vertices": _arr(x.vertices), "faces": _arr(x.faces)}
+    if tname.startswith("trimesh.") and hasattr(x, "geometry"):
+        return {"__scene__": 1, "geometry": norm(dict(x.geometry))}
+    if tname.startswith("chmpy.") and hasattr(x, "__dict__"):
+        # e.g. Dimer, PowderPattern: compared attribute by attribute
+        return {"__obj__": tname, "attrs": norm({k: v for k, v in vars(x).items() if not callable(v)})}
+    # unknown objects: only their type takes part in the comparison
+    return {"__type__": tname}
 
 
 def _same_float(a, b, tol):
